@@ -1,4 +1,4 @@
-\* C15 two-run form of C15 (insert k code-free lines), required design, 2 files, <= 3 items + the insertion (quick): ShiftFaithful must hold
+\* C15 two-run form of C15 (insert k code-free lines), required design, 2 files, <= 4 items + the insertion (thorough): ShiftFaithful must hold
 CONSTANTS
   CNO = 2
   LNO = 3
@@ -13,7 +13,7 @@ CONSTANTS
   RunLens = {1, 4}
   MaxLines = 12
   MaxIf = 1
-  MaxItems = 3
+  MaxItems = 4
   Feat = {"line", "if", "misc"}
   AvoidEofIf = FALSE
   AvoidCollide = FALSE
